@@ -1485,3 +1485,11 @@ func (in *Interp) builtin(fr *Frame, x *ssa.Call, b *ssa.Builtin, args []*Term, 
 	in.warn("unsupported builtin %s in %s", b.Name(), fr.Fn.String())
 	return nil
 }
+
+// LoadAt reads the abstract memory at a constant path of o (exported for hooks and rules).
+func (in *Interp) LoadAt(m *Mem, o *Object, p Path) *Term { return in.load(m, o, p) }
+
+// ParamObj returns the object a pointer-typed root parameter points to.
+func (in *Interp) ParamObj(name string, elem types.Type) *Object {
+	return in.Obj("param:"+name, "param", elem)
+}
